@@ -6,8 +6,9 @@
    the theorems hold for EVERY such table, so the float comparisons of edge lengths are irrelevant. *)
 From Coq Require Import List Arith Bool ZArith QArith.
 Import ListNotations.
-Require Import Model.C12_Refine Model.C12_Geom Model.C13_Adaptive.
-Require Import Proofs.C12_RefineProofs Proofs.C12_GeomProofs Proofs.C13_AdaptiveProofs.
+Require Import Base.C11_Unique Model.C11_Topo Proofs.C11_TopoProofs.
+Require Import Model.C12_Refine Model.C12_Geom Model.C13_Adaptive Model.C12_Global.
+Require Import Proofs.C12_RefineProofs Proofs.C12_GeomProofs Proofs.C13_AdaptiveProofs Proofs.C12_GlobalProofs.
 Require Import Gen.C13Gen Dyn.C13Tie.
 Local Open Scope nat_scope.
 
@@ -104,6 +105,32 @@ Theorem C13_adaptive_conforming :
 Proof. split; [exact traces_ok | exact (traces_agree gen13_tri_rfacets)]. Qed.
 Print Assumptions C13_adaptive_conforming.
 
+(* GLOBAL conformity of the red-green-blue result, with the facet tables of Mesh.build_entities for the re-ordered
+   connectivity (C11): for EVERY marking F (in particular the closure) and EVERY cell k containing facet f = {e0, e1} as its
+   local facet a, the children of k leave on f the two halves {e0, c}, {c, e1} around the node c = node_of F nv f if f is
+   marked and the whole facet {e0, e1} otherwise — a function of f alone, so a facet is split from one side iff it is split
+   from the other and at the same node.  With C13_adaptive_conforming (the class of a cell is determined by which of its
+   facets are marked, each class cuts exactly its marked facets) no hanging node exists anywhere in the mesh. *)
+Theorem C13_global_no_hanging_nodes : forall cells F nv k a,
+  Forall (fun c => NoDup c /\ length c = 3) cells -> k < length cells -> a < length gen13_tri_rfacets ->
+  let tb := c11_tables cells gen13_tri_rfacets in
+  forall e, In e (resolved_pieces gen13_tri_rfacets F nv (cell_ctx tb k) a)
+            <-> In e (facet_trace F nv (tb_facets tb) (nth a (cf (cell_ctx tb k)) 0)).
+Proof. intros cells F nv k a Hc. exact (global_facet_trace cells gen13_tri_rfacets 3 tri13_rf2_ok Hc F nv k a). Qed.
+Print Assumptions C13_global_no_hanging_nodes.
+
+Theorem C13_shared_facet_split_alike : forall cells F nv k1 a1 k2 a2,
+  Forall (fun c => NoDup c /\ length c = 3) cells ->
+  k1 < length cells -> a1 < length gen13_tri_rfacets -> k2 < length cells -> a2 < length gen13_tri_rfacets ->
+  let tb := c11_tables cells gen13_tri_rfacets in
+  nth a1 (cf (cell_ctx tb k1)) 0 = nth a2 (cf (cell_ctx tb k2)) 0 ->
+  forall e, In e (resolved_pieces gen13_tri_rfacets F nv (cell_ctx tb k1) a1)
+            <-> In e (resolved_pieces gen13_tri_rfacets F nv (cell_ctx tb k2) a2).
+Proof.
+  intros cells F nv k1 a1 k2 a2 Hc. exact (shared_facet_same_pieces cells gen13_tri_rfacets 3 tri13_rf2_ok Hc F nv k1 a1 k2 a2).
+Qed.
+Print Assumptions C13_shared_facet_split_alike.
+
 (* the children of every class tile the parent, for every parent geometry: convex weights, non-zero
    determinants det(child) = s det(parent) with sum |s| = 1, pairwise separated interiors *)
 Theorem C13_tri_children_tile_parent : forall b, In b gen_split_blocks ->
@@ -171,6 +198,14 @@ Print Assumptions C13_line_unmarked_kept.
 Theorem C13_history_old_vertices : forall steps p, firstn (length p) (fold_left apply_rstep steps p) = p.
 Proof. exact history_old_vertices. Qed.
 Print Assumptions C13_history_old_vertices.
+
+(* second-order classes (after N1): MeshTri2._adaptive and MeshTet2._adaptive refine the vertex mesh as MeshTri1 / MeshTet1
+   WITH the subdomains and copy them back, so vertices, connectivity and subdomains of the result are those of the
+   linear class (all theorems above apply verbatim); refuted if a class goes through from_mesh alone *)
+Theorem C13_second_order_refines_as_linear : forall (M : Type) (lin drop : M -> M) (m : M),
+  refine_second gen_tri2_adaptive_via lin drop m = lin m /\ refine_second gen_tet2_adaptive_via lin drop m = lin m.
+Proof. intros M lin drop m. split; reflexivity. Qed.
+Print Assumptions C13_second_order_refines_as_linear.
 
 (* non-vacuity: two triangles sharing facet 2 (their slot-2 facet); marking cell 0 makes cell 0 red and the
    closure marks nothing else of cell 1 than the shared facet: cell 1 is green *)
